@@ -9,7 +9,7 @@
    field-level ones, to which the BigZ-backed dictionaries B1/B2/B3 used for the computation
    are tied by a logical relation (stands_for) -- and (2) collect, per crate, the fact that
    every generated check evaluates to true. *)
-From V Require Import Base.Field C16.ConfigChecks C16.ConfigSpecs C16.ModelSpecs.
+From V Require Import Base.Field C13.Poly C16.ConfigChecks C16.ConfigSpecs C16.ModelSpecs.
 From V Require Import C16.Facts_t_bls12_381 C16.Facts_t_bn384 C16.Facts_t_mnt4_753 C16.Facts_t_mnt6_753 C16.Facts_t_secp256k1 C16.Facts_t_ed_on_bls12_381 C16.Facts_t_fp128 C16.Facts_bls12_381 C16.Facts_bls12_377 C16.Facts_bn254 C16.Facts_secp256k1 C16.Facts_ed25519 C16.Facts_curve25519 C16.Facts_pallas C16.Facts_vesta C16.Facts_grumpkin C16.Facts_ed_on_bls12_381 C16.Facts_ed_on_bls12_381_bandersnatch C16.Facts_ed_on_bls12_377 C16.Facts_ed_on_bn254 C16.Facts_ed_on_cp6_782 C16.Facts_ed_on_mnt4_298 C16.Facts_ed_on_mnt4_753 C16.Facts_mnt4_298 C16.Facts_mnt6_298 C16.Facts_mnt4_753 C16.Facts_mnt6_753 C16.Facts_bw6_761 C16.Facts_bw6_767 C16.Facts_cp6_782 C16.Facts_secp256r1 C16.Facts_secp384r1 C16.Facts_secq256k1.
 Require Import ZArith List Bool. Import ListNotations. Open Scope Z_scope.
 
@@ -82,6 +82,14 @@ Theorem C16_flag_square : forall p n sq, flag_square_ok p n sq = true ->
   sq = ((p <? 2 ^ (64 * n - 2)) && negb (p =? 2 ^ (64 * n - 2) - 1)).
 Proof. exact flag_square_spec. Qed.
 
+(* Field::SQRT_PRECOMP (what sqrt() reads): Case3Mod4 with (p+1)/4 exactly when p = 3 mod 4, otherwise
+   TonelliShanks with p - 1 = 2^s (2 tm + 1) and g^(2 tm + 1) of exact order 2^s *)
+Theorem C16_sqrt_precomp : forall p g kind v, sqrt_precomp_ok p g kind v = true ->
+  (p mod 4 = 3 /\ kind = 2 /\ v = [(p + 1) / 4]) \/
+  (p mod 4 <> 3 /\ kind = 1 /\ exists s q tm, v = [s; q; tm] /\ 2 < p /\ 0 < s /\ 0 <= tm /\
+     p - 1 = 2 ^ s * (2 * tm + 1) /\ q = g ^ (2 * tm + 1) mod p /\ q ^ (2 ^ (s - 1)) mod p = p - 1).
+Proof. exact sqrt_precomp_spec. Qed.
+
 (* ---------- curve groups, GLV, pairing parameter sets (integer level) ---------- *)
 Theorem C16_cofactor_inv : forall r h hinv, cofactor_inv_ok r h hinv = true ->
   1 < r /\ 0 <= hinv < r /\ (h * hinv) mod r = 1.
@@ -104,6 +112,14 @@ Proof. exact bn_params_spec. Qed.
 Theorem C16_bw6_params : forall x r xm l1, bw6_params_ok x r xm l1 = true ->
   3 * r = (x - 1) ^ 2 * (x ^ 4 - x ^ 2 + 1) + 3 * x /\ 3 * xm = Z.abs (x - 1) /\ l1 = x.
 Proof. exact bw6_params_spec. Qed.
+(* BW6: the base-field modulus, the trace of G1 and the order of the G2 twist are what the seed x and
+   H_T / H_Y / T_MOD_R_IS_ZERO say (4p = t^2 + 3y^2, stated as 12p = 3t^2 + (3y)^2) *)
+Theorem C16_bw6_curve : forall x p r ht hy t0 h1 h2, bw6_curve_ok x p r ht hy t0 h1 h2 = true ->
+  let t := bw6_t x r ht t0 in let y3 := bw6_y3 x r hy t0 in
+  12 * p = 3 * t ^ 2 + y3 ^ 2 /\ t = p + 1 - h1 * r /\ (2 * (p + 1 - h2 * r) - t) ^ 2 = y3 ^ 2.
+Proof. exact bw6_curve_spec. Qed.
+Theorem C16_ate_loop_mod : forall l p r, ate_loop_mod_ok l p r = true -> 0 < l /\ 0 < r /\ (l - p) mod r = 0.
+Proof. exact ate_loop_mod_spec. Qed.
 Theorem C16_mnt4_final_exp : forall p r w1 w0, mnt4_final_exp_ok p r w1 w0 = true ->
   (w1 * p + w0) * r = p * p + 1.
 Proof. exact mnt4_final_exp_spec. Qed.
@@ -126,6 +142,47 @@ Proof. exact (@pow_is_spec). Qed.
 Theorem C16_pow_isnt : forall T U (B : Fops T) (G : Fops U), stands_for B G ->
   forall a e c, pow_isnt B a e c = true -> 0 <= e /\ fpow G (el G a) e <> el G c.
 Proof. exact (@pow_isnt_spec). Qed.
+Theorem C16_nonzero : forall T U (B : Fops T) (G : Fops U), stands_for B G ->
+  forall a, nonzero_ok B a = true -> el G a <> f0 G.
+Proof. exact (@nonzero_ok_spec). Qed.
+Theorem C16_mul_pow_is : forall T U (B : Fops T) (G : Fops U), stands_for B G ->
+  forall a b e c, mul_pow_is B a b e c = true -> 0 <= e /\ fmul G (el G a) (fpow G (el G b) e) = el G c.
+Proof. exact (@mul_pow_is_spec). Qed.
+(* simplified SWU: g(b/(ZETA a)) is a square, so the exceptional input u = 0 is mapped to a curve point *)
+Theorem C16_swu_exceptional : forall T U (B : Fops T) (G : Fops U), stands_for B G ->
+  forall q a b z, swu_exceptional_ok B q a b z = true ->
+  let x := fmul G (el G b) (finv G (fmul G (el G z) (el G a))) in
+  Z.odd q = true /\
+  fpow G (fadd G (fadd G (fmul G (fmul G x x) x) (fmul G (el G a) x)) (el G b)) ((q - 1) / 2) = f1 G.
+Proof. exact (@swu_exceptional_ok_spec). Qed.
+(* Wahby-Boneh isogeny coefficient lists: the polynomial identity
+   yn^2 (x^3 + a' x + b') xd^3 = (xn^3 + A xn xd^2 + B xd^3) yd^2 holds coefficient-wise over the
+   specification field, and no denominator / y-numerator is the zero polynomial *)
+Theorem C16_wb_isogeny : forall T U (B : Fops T) (G : Fops U), stands_for B G ->
+  forall a' b' A Bc xn xd yn yd, wb_iso_ok B a' b' A Bc xn xd yn yd = true ->
+  pzero (f0 G) (feqb G) (els G xd) = false /\ pzero (f0 G) (feqb G) (els G yd) = false /\
+  pzero (f0 G) (feqb G) (els G yn) = false /\
+  iso_identity (f0 G) (f1 G) (fadd G) (fmul G) (feqb G) (el G a') (el G b') (el G A) (el G Bc)
+               (els G xn) (els G xd) (els G yn) (els G yd) = true.
+Proof. exact (@wb_iso_ok_spec). Qed.
+(* a curve shipped as twisted Edwards (+ Montgomery) and as short Weierstrass: the SW model is the
+   Weierstrass form of the Montgomery model and the SW generator is the image of the TE generator *)
+Theorem C16_sw_te_models : forall T U (B : Fops T) (G : Fops U), stands_for B G ->
+  forall a d x y mA mB sa sb X Y, sw_te_ok B a d x y mA mB sa sb X Y = true ->
+  let two := fadd G (f1 G) (f1 G) in let three := fadd G two (f1 G) in let four := fadd G two two in
+  let nine := fmul G three three in
+  let Am := el G mA in let Bm := el G mB in
+  let u3 := fsub G (fmul G three (fmul G Bm (el G X))) Am in
+  let v3 := fmul G three (fmul G (el G x) (fmul G Bm (el G Y))) in
+  let k := fmul G Bm (fsub G (el G a) (el G d)) in
+  three <> f0 G /\ Bm <> f0 G /\
+  fmul G (fmul G three (fmul G Bm Bm)) (el G sa) = fsub G three (fmul G Am Am) /\
+  fmul G (fmul G (fmul G nine three) (fmul G (fmul G Bm Bm) Bm)) (el G sb) =
+    fsub G (fmul G two (fmul G (fmul G Am Am) Am)) (fmul G nine Am) /\
+  el G y <> f1 G /\
+  fmul G u3 (fsub G (f1 G) (el G y)) = fmul G three (fadd G (f1 G) (el G y)) /\
+  ((k = four /\ v3 = u3) \/ fmul G (fmul G v3 v3) k = fmul G four (fmul G u3 u3)).
+Proof. exact (@sw_te_ok_spec). Qed.
 (* Frobenius tables hold the corresponding powers of the non-residue *)
 Theorem C16_frobenius_table : forall T U (B : Fops T) (G : Fops U), stands_for B G ->
   forall beta p k m tbl, frob_ok B beta p k m tbl = true ->
@@ -265,6 +322,25 @@ Theorem C16_bls12_381_g2_order :
          (Some (el G Dump_bls12_381.g2_GENERATOR_X, el G Dump_bls12_381.g2_GENERATOR_Y)) = None.
 Proof. exact (sw_order_ok_spec _ _ (B2_stands_for_Z2 _ _) _ _ _ _ Facts_bls12_381.fact_g2_order). Qed.
 
+(* the 11-isogeny of the Wahby-Boneh map of BLS12-381 G1, over Z1 p *)
+Theorem C16_bls12_381_g1_isogeny :
+  let G := Z1 Dump_bls12_381.fq_MODULUS in
+  iso_identity (f0 G) (f1 G) (fadd G) (fmul G) (feqb G)
+    (el G Dump_bls12_381.g1_swu_iso_COEFF_A) (el G Dump_bls12_381.g1_swu_iso_COEFF_B)
+    (el G Dump_bls12_381.g1_COEFF_A) (el G Dump_bls12_381.g1_COEFF_B)
+    (els G Dump_bls12_381.g1_wb_X_NUM) (els G Dump_bls12_381.g1_wb_X_DEN)
+    (els G Dump_bls12_381.g1_wb_Y_NUM) (els G Dump_bls12_381.g1_wb_Y_DEN) = true.
+Proof.
+  exact (proj2 (proj2 (proj2 (wb_iso_ok_spec _ _ (B1_stands_for_Z1 _) _ _ _ _ _ _ _ _
+                                Facts_bls12_381.fact_g1_wb_isogeny_identity)))).
+Qed.
+(* BW6-761: 4p = t^2 + 3y^2 for the t, y determined by x, H_T = 13, H_Y = 9 *)
+Theorem C16_bw6_761_modulus :
+  let t := bw6_t Dump_bw6_761.pairing_X Dump_bw6_761.fr_MODULUS Dump_bw6_761.pairing_H_T false in
+  let y3 := bw6_y3 Dump_bw6_761.pairing_X Dump_bw6_761.fr_MODULUS Dump_bw6_761.pairing_H_Y false in
+  12 * Dump_bw6_761.fq_MODULUS = 3 * t ^ 2 + y3 ^ 2.
+Proof. exact (proj1 (bw6_curve_spec _ _ _ _ _ _ _ _ Facts_bw6_761.fact_pairing_bw6_curve)). Qed.
+
 (* non-vacuity of the implications: the hypotheses are satisfied by shipped constants *)
 Example C16_ex_mont : mont_consts_ok Dump_t_fp128.fq_MODULUS Dump_t_fp128.fq_N Dump_t_fp128.fq_R
                                      Dump_t_fp128.fq_R2 Dump_t_fp128.fq_INV = true.
@@ -276,4 +352,18 @@ Proof. vm_compute. reflexivity. Qed.
 Example C16_ex_sw_order : sw_order_ok (B1 17) [2] [5] [1] 19 = true.
 Proof. vm_compute. reflexivity. Qed.
 Example C16_ex_te_order : te_order_ok (B1 13) [1] [2] [1] [0] 4 = true.
+Proof. vm_compute. reflexivity. Qed.
+Example C16_ex_sqrt_precomp : sqrt_precomp_ok 17 3 1 [4; 3; 0] = true /\ sqrt_precomp_ok 7 3 2 [2] = true.
+Proof. vm_compute. split; reflexivity. Qed.
+(* the 2-isogeny (x, y) -> ((x^2+1)/x, y (x^2-1)/x^2) from y^2 = x^3 + x to y^2 = x^3 - 4x over F_13 *)
+Example C16_ex_wb_iso : wb_iso_ok (B1 13) [1] [0] [-4] [0] [[1]; [0]; [1]] [[0]; [1]] [[-1]; [0]; [1]] [[0]; [0]; [1]] = true.
+Proof. vm_compute. reflexivity. Qed.
+Example C16_ex_bw6_curve : bw6_curve_ok Dump_bw6_767.pairing_X Dump_bw6_767.fq_MODULUS Dump_bw6_767.fr_MODULUS
+                                         Dump_bw6_767.pairing_H_T Dump_bw6_767.pairing_H_Y true
+                                         Dump_bw6_767.g1_COFACTOR Dump_bw6_767.g2_COFACTOR = true.
+Proof. vm_compute. reflexivity. Qed.
+Example C16_ex_sw_te : sw_te_ok (B1 Dump_ed_on_bls12_381.fq_MODULUS) Dump_ed_on_bls12_381.te_COEFF_A Dump_ed_on_bls12_381.te_COEFF_D
+    Dump_ed_on_bls12_381.te_GENERATOR_X Dump_ed_on_bls12_381.te_GENERATOR_Y Dump_ed_on_bls12_381.te_MONT_COEFF_A
+    Dump_ed_on_bls12_381.te_MONT_COEFF_B Dump_ed_on_bls12_381.sw_COEFF_A Dump_ed_on_bls12_381.sw_COEFF_B
+    Dump_ed_on_bls12_381.sw_GENERATOR_X Dump_ed_on_bls12_381.sw_GENERATOR_Y = true.
 Proof. vm_compute. reflexivity. Qed.
